@@ -16,9 +16,14 @@ Open Scope N_scope.
 Inductive sframe :=
 | SOp (tag rtyp : N) (gate : option N) (mode : N)  (* a request served by one backend call; not gated: returns at once, mode 0 = ok *)
 | SFlush (tag old : N)
-| SReject (tag : N).                                (* recv fails with this tag: Rlerror, no tag started *)
+| SReject (tag : N)                                 (* recv fails with this tag: Rlerror, no tag started *)
+| SEof.                                             (* the peer closed: recv returns a connection error *)
 
-Inductive sstep := SSend (fs : list sframe) | SRelease (g mode : N).
+Inductive sstep :=
+| SSend (c : nat) (fs : list sframe)   (* on connection c *)
+| SRelease (g mode : N)                (* the backend is shared by the connections *)
+| SBreak (c : nat)                     (* the peer of connection c stops reading replies: writes fail from now on *)
+| SHangup (c : nat).                   (* the peer of connection c closes its sending side: EOF *)
 
 Inductive lcase :=
 | CScn (script : list sstep) (obs : list (list (N * N)))
@@ -29,13 +34,15 @@ Definition to_frame (f : sframe) : frame :=
   | SOp t _ _ _ => FReq t KOp
   | SFlush t o => FReq t (KFlush o)
   | SReject t => FReject t
+  | SEof => FConn
   end.
 
-Fixpoint all_frames (sc : list sstep) : list sframe :=
+Fixpoint all_frames (c : nat) (sc : list sstep) : list sframe :=
   match sc with
   | [] => []
-  | SSend fs :: r => fs ++ all_frames r
-  | SRelease _ _ :: r => all_frames r
+  | SSend c' fs :: r => if Nat.eqb c c' then fs ++ all_frames c r else all_frames c r
+  | SHangup c' :: r => if Nat.eqb c c' then SEof :: all_frames c r else all_frames c r
+  | _ :: r => all_frames c r
   end.
 
 (** ---- the canonical schedule ---- *)
@@ -66,7 +73,8 @@ Definition cand (all : list sframe) (m : sim) (i : nat) : option label :=
       end
   | RRet _, _ => Some (LClear i)
   | RClr _, _ => Some (LLock i)
-  | RSend r k, _ => if Nat.eqb k (S (r_extra r)) then Some (LUnlock i) else Some (LChunk i)
+  | RSend r k, _ => if Nat.eqb k (S (r_extra r)) then Some (LUnlock i)
+                    else if wbroken s then Some (LSendFail i) else Some (LChunk i)
   | _, _ => None
   end.
 
@@ -122,7 +130,7 @@ Fixpoint intake_all (fuel : nat) (inp : list frame) (m : sim) : sim :=
     beyond nrecv is false, tags are only ever set for tags of received frames); it
     only keeps evaluation cheap. *)
 Definition sframe_tag (f : sframe) : N :=
-  match f with SOp t _ _ _ => t | SFlush t _ => t | SReject t => t end.
+  match f with SOp t _ _ _ => t | SFlush t _ => t | SReject t => t | SEof => 0 end.
 Definition normalize (all : list sframe) (s : state) : state :=
   let n := nrecv s in
   let snap := map (pc s) (seq 0 n) in
@@ -131,7 +139,7 @@ Definition normalize (all : list sframe) (s : state) : state :=
   mkState n (shut s) (recvmu s) (nnew s) (nidle s)
           (fun i => nth i snap RNone)
           (fun t => match find (fun p => fst p =? t) tg with Some (_, v) => v | None => None end)
-          (fun c => nth c cl false) (sendmu s) (wire s) (replies s).
+          (fun c => nth c cl false) (sendmu s) (wire s) (replies s) (wbroken s) (torn s).
 
 Fixpoint quiesce (fuel : nat) (inp : list frame) (all : list sframe) (m : sim) : sim :=
   match fuel with
@@ -144,30 +152,46 @@ Fixpoint quiesce (fuel : nat) (inp : list frame) (all : list sframe) (m : sim) :
       if b || negb (Nat.eqb (nrecv (st m1)) (nrecv (st m))) then quiesce f inp all m1 else m1
   end.
 
-Definition reply_code (all : list sframe) (ir : nat * reply) : N * N :=
+Definition conn_key (c : nat) (t : N) : N := t + 65536 * N.of_nat c.
+
+Definition reply_code (c : nat) (all : list sframe) (ir : nat * reply) : N * N :=
   let '(i, r) := ir in
   match nth_error all i with
-  | Some (SOp t rt _ _) => (t, match r_kind r with RErr => p9_msgRlerror | RMatch => rt end)
-  | Some (SFlush t _) => (t, match r_kind r with RErr => p9_msgRlerror | RMatch => p9_msgRflush end)
-  | Some (SReject t) => (t, p9_msgRlerror)
-  | None => (0, 0)
+  | Some (SOp t rt _ _) => (conn_key c t, match r_kind r with RErr => p9_msgRlerror | RMatch => rt end)
+  | Some (SFlush t _) => (conn_key c t, match r_kind r with RErr => p9_msgRlerror | RMatch => p9_msgRflush end)
+  | Some (SReject t) => (conn_key c t, p9_msgRlerror)
+  | _ => (0, 0)
   end.
 
-Fixpoint predict_steps (all : list sframe) (m : sim) (sc : list sstep) : list (list (N * N)) :=
+(** one phase of connection c: returns the new sim and the replies written in the phase *)
+Definition phase_conn (c : nat) (all : list sframe) (m : sim) (stp : sstep) : sim * list (N * N) :=
+  let m1 := match stp with
+            | SSend c' fs => if Nat.eqb c c' then mkSim (st m) (avail m + List.length fs) (rel m) (entered m) else m
+            | SHangup c' => if Nat.eqb c c' then mkSim (st m) (avail m + 1) (rel m) (entered m) else m
+            | SRelease g md => mkSim (st m) (avail m) ((g, md) :: rel m) (entered m)
+            | SBreak c' => if Nat.eqb c c' then
+                             match exec [] LBreak (st m) with
+                             | Some s' => mkSim s' (avail m) (rel m) (entered m)
+                             | None => m
+                             end
+                           else m
+            end in
+  let inp := map to_frame (firstn (avail m1) all) in
+  let m2 := quiesce (4 * List.length all + 8) inp all m1 in
+  (m2, map (reply_code c all) (skipn (List.length (replies (st m))) (replies (st m2)))).
+
+(** two connections (0 and 1) on one server: the loops share nothing, the gates are common *)
+Fixpoint predict_steps (a0 a1 : list sframe) (m0 m1 : sim) (sc : list sstep) : list (list (N * N)) :=
   match sc with
   | [] => []
   | stp :: r =>
-      let m1 := match stp with
-                | SSend fs => mkSim (st m) (avail m + List.length fs) (rel m) (entered m)
-                | SRelease g md => mkSim (st m) (avail m) ((g, md) :: rel m) (entered m)
-                end in
-      let inp := map to_frame (firstn (avail m1) all) in
-      let m2 := quiesce (4 * List.length all + 8) inp all m1 in
-      map (reply_code all) (skipn (List.length (replies (st m))) (replies (st m2))) :: predict_steps all m2 r
+      let '(m0', r0) := phase_conn 0 a0 m0 stp in
+      let '(m1', r1) := phase_conn 1 a1 m1 stp in
+      (r0 ++ r1) :: predict_steps a0 a1 m0' m1' r
   end.
 
 Definition predict (sc : list sstep) : list (list (N * N)) :=
-  predict_steps (all_frames sc) (mkSim init 0 [] []) sc.
+  predict_steps (all_frames 0 sc) (all_frames 1 sc) (mkSim init 0 [] []) (mkSim init 0 [] []) sc.
 
 (** ---- sorting and comparison ---- *)
 Definition pair_leb (a b : N * N) : bool :=
@@ -201,12 +225,16 @@ Definition out_t := (N * N * bool)%type.
 Fixpoint tag_in_flight (t : N) (o : list out_t) : bool :=
   match o with [] => false | (t', _, isreq) :: r => (isreq && (t' =? t)) || tag_in_flight t r end.
 
-Definition add_frame (o : list out_t) (f : sframe) : list out_t :=
+Definition add_frame (c : nat) (o : list out_t) (f : sframe) : list out_t :=
   match f with
-  | SReject t => o ++ [(t, p9_msgRlerror, false)]
-  | SOp t rt _ _ => if tag_in_flight t o then o else o ++ [(t, rt, true)]     (* tag in flight: the peer is bogus, no reply due *)
-  | SFlush t _ => if tag_in_flight t o then o else o ++ [(t, p9_msgRflush, true)]
+  | SReject t => o ++ [(conn_key c t, p9_msgRlerror, false)]
+  | SOp t rt _ _ => if tag_in_flight (conn_key c t) o then o else o ++ [(conn_key c t, rt, true)]     (* tag in flight: the peer is bogus, no reply due *)
+  | SFlush t _ => if tag_in_flight (conn_key c t) o then o else o ++ [(conn_key c t, p9_msgRflush, true)]
+  | SEof => o
   end.
+
+Definition of_conn (c : nat) (e : out_t) : bool :=
+  let '(k, _, _) := e in (65536 * N.of_nat c <=? k) && (k <? 65536 * N.of_nat (S c)).
 
 (* remove one outstanding entry this reply answers (an entry whose own type it has, else - for an
    Rlerror - any entry with that tag); None = nobody asked for it *)
@@ -229,13 +257,19 @@ Fixpoint consume_all (o : list out_t) (rs : list (N * N)) : option (list out_t) 
   | r :: rest => match consume o r with Some o' => consume_all o' rest | None => None end
   end.
 
-Fixpoint solicited (o : list out_t) (sc : list sstep) (obs : list (list (N * N))) : bool :=
+(* [dead]: connections whose peer no longer reads: nothing is due to them, nothing can arrive *)
+Fixpoint solicited (dead : list nat) (o : list out_t) (sc : list sstep) (obs : list (list (N * N))) : bool :=
   match sc, obs with
   | [], [] => match o with [] => true | _ => false end        (* every accepted request was answered *)
   | stp :: sc', ph :: obs' =>
-      let o1 := match stp with SSend fs => fold_left add_frame fs o | SRelease _ _ => o end in
+      let dead' := match stp with SBreak c => c :: dead | _ => dead end in
+      let o1 := match stp with
+                | SSend c fs => if memn c dead then o else fold_left (add_frame c) fs o
+                | SBreak c => filter (fun e => negb (of_conn c e)) o
+                | _ => o
+                end in
       match consume_all o1 ph with
-      | Some o2 => solicited o2 sc' obs'
+      | Some o2 => solicited dead' o2 sc' obs'
       | None => false                                          (* unsolicited / duplicate / wrong tag or type *)
       end
   | _, _ => false
@@ -248,7 +282,7 @@ Definition property_holds (c : lcase) : bool :=
       && returned                   (* Handle returns after the peer closes *)
       && clean && valid             (* the byte stream is a sequence of whole, well-formed reply frames *)
       && negb early                 (* no Rflush while the flushed request was inside the backend *)
-      && solicited [] sc obs        (* one reply per accepted request, tag/type match, nothing unsolicited *)
+      && solicited [] [] sc obs        (* one reply per accepted request, tag/type match, nothing unsolicited *)
   end.
 
 Fixpoint failing (f : lcase -> bool) (i : nat) (l : list lcase) : list nat :=
